@@ -11,6 +11,9 @@ package main
 //   ok | exists | noprofile | already | err | locked | notfound | tok<i> | true | false | val V | ids a,b
 
 import (
+	"crypto/ed25519"
+	"crypto/rand"
+	"encoding/json"
 	"errors"
 	"fmt"
 	"os"
@@ -26,6 +29,8 @@ import (
 	"github.com/hyperledger/aries-framework-go/pkg/kms"
 	"github.com/hyperledger/aries-framework-go/component/kmscrypto/doc/util/fingerprint"
 	"github.com/hyperledger/aries-framework-go/component/models/signature/suite"
+	"github.com/btcsuite/btcutil/base58"
+	"github.com/hyperledger/aries-framework-go/component/models/signature/suite/bbsblssignature2020"
 	"github.com/hyperledger/aries-framework-go/component/models/signature/suite/ed25519signature2018"
 	"github.com/hyperledger/aries-framework-go/component/models/verifiable"
 	vdrkey "github.com/hyperledger/aries-framework-go/component/vdr/key"
@@ -104,6 +109,80 @@ func c19SignedVC() []byte {
 	}
 	c19VC = b
 	return b
+}
+
+var (
+	c19BBS      []byte
+	c19BBSFrame map[string]interface{}
+)
+
+// a credential with a BBS+ proof by a did:key issuer, and a reveal frame for it
+func c19BBSVC() ([]byte, map[string]interface{}) {
+	if c19BBS != nil {
+		return c19BBS, c19BBSFrame
+	}
+	didKey, kid := fingerprint.CreateDIDKeyByCode(fingerprint.BLS12381g2PubKeyMultiCodec, c07E.pubs["bbs"])
+	ctx := `["https://www.w3.org/2018/credentials/v1","https://w3id.org/security/bbs/v1"]`
+	raw := fmt.Sprintf(`{"@context":%s,"id":"http://example.edu/credentials/c19b","type":["VerifiableCredential"],"issuer":%q,"issuanceDate":"2020-01-01T19:23:24Z","credentialSubject":{"id":"did:example:s"}}`, ctx, didKey)
+	vc, err := verifiable.ParseCredential([]byte(raw), verifiable.WithDisabledProofCheck(), verifiable.WithJSONLDDocumentLoader(c07E.loader))
+	if err != nil {
+		panic(err)
+	}
+	created := time.Date(2020, 1, 2, 0, 0, 0, 0, time.UTC)
+	err = vc.AddLinkedDataProof(&verifiable.LinkedDataProofContext{
+		SignatureType: "BbsBlsSignature2020", SignatureRepresentation: verifiable.SignatureProofValue,
+		Suite:              bbsblssignature2020.New(suite.WithSigner(c07BBSSigner{c07E.handles["bbs"]})),
+		VerificationMethod: kid, Created: &created,
+	}, c07LDOpt(c07E.loader))
+	if err != nil {
+		panic(err)
+	}
+	b, err := vc.MarshalJSON()
+	if err != nil {
+		panic(err)
+	}
+	var frame map[string]interface{}
+	_ = json.Unmarshal([]byte(fmt.Sprintf(`{"@context":%s,"type":["VerifiableCredential"],"@explicit":true,"issuer":{},"issuanceDate":{},"credentialSubject":{"@explicit":true}}`, ctx)), &frame)
+	c19BBS, c19BBSFrame = b, frame
+	return b, frame
+}
+
+// c19CrossKey: profile `owner` (live token tOwner on wallet w) imports a signing key and uses it; every OTHER profile that
+// has a live session then tries to issue with that key through its own wallet and its own token. "" = all refused.
+func c19CrossKey(w *wallet.Wallet, tOwner, owner string, created map[string]bool, tokens []string, tokenOwner map[string]string,
+	newWallet func(string) (*wallet.Wallet, string)) string {
+	pub, priv, err := ed25519.GenerateKey(rand.Reader)
+	if err != nil {
+		return ""
+	}
+	didKey, vmID := fingerprint.CreateDIDKey(pub)
+	keyContent := fmt.Sprintf(`{"@context":["https://w3id.org/wallet/v1"],"id":%q,"controller":%q,"type":"Ed25519VerificationKey2018","privateKeyBase58":%q}`,
+		vmID, didKey, base58.Encode(priv))
+	if err := w.Add(tOwner, wallet.Key, []byte(keyContent)); err != nil {
+		return "key-import-failed"
+	}
+	cred := []byte(fmt.Sprintf(`{"@context":["https://www.w3.org/2018/credentials/v1"],"id":"http://example.edu/credentials/c19x","type":["VerifiableCredential"],"issuer":%q,"issuanceDate":"2020-01-01T19:23:24Z","credentialSubject":{"id":"did:example:s"}}`, didKey))
+	if _, err := w.Issue(tOwner, cred, &wallet.ProofOptions{Controller: didKey}); err != nil {
+		return "issue-with-own-key-failed"
+	}
+	for other := range created {
+		if other == owner {
+			continue
+		}
+		wo, _ := newWallet(other)
+		if wo == nil {
+			continue
+		}
+		for _, t := range tokens {
+			if tokenOwner[t] != other {
+				continue
+			}
+			if _, err := wo.Issue(t, cred, &wallet.ProofOptions{Controller: didKey}); err == nil {
+				return "key-of-another-profile-used"
+			}
+		}
+	}
+	return ""
 }
 
 func c19Run(input string) string {
@@ -280,6 +359,8 @@ func c19Run(input string) string {
 			}
 			_, err := w.CreateKeyPair(tok(f[2]), kms.ED25519Type)
 			o = c19Class(err)
+			bbsVC, frame := c19BBSVC()
+			dopts := &wallet.DeriveOptions{Nonce: "n", Frame: frame}
 			if err != nil {
 				// operations that work on data handed in by the caller (no stored content needed) take the token as well
 				if ok, e := w.Verify(tok(f[2]), wallet.WithRawCredentialToVerify(c19SignedVC())); e == nil && ok {
@@ -287,6 +368,25 @@ func c19Run(input string) string {
 				}
 				if _, e := w.Derive(tok(f[2]), wallet.FromRawCredential(c19SignedVC()), &wallet.DeriveOptions{Nonce: "n"}); e == nil {
 					o = "derive-raw-not-guarded"
+				}
+				// the same with a credential that CAN be derived from (BBS+ proof, issuer resolvable without the wallet), handed in
+				// as bytes and as an instance
+				if _, e := w.Derive(tok(f[2]), wallet.FromRawCredential(bbsVC), dopts); e == nil {
+					o = "derive-raw-not-guarded"
+				}
+				if inst, e := verifiable.ParseCredential(bbsVC, verifiable.WithDisabledProofCheck(), verifiable.WithJSONLDDocumentLoader(loader)); e == nil {
+					if _, e := w.Derive(tok(f[2]), wallet.FromCredential(inst), dopts); e == nil {
+						o = "derive-instance-not-guarded"
+					}
+				}
+			} else {
+				// with a live token of the profile the derivation works (the probes above are not refused for another reason)
+				if _, e := w.Derive(tok(f[2]), wallet.FromRawCredential(bbsVC), dopts); e != nil {
+					o = "derive-with-live-token-failed"
+				}
+				// keys of this profile are of no use to another profile, not even through that profile's own live session
+				if r := c19CrossKey(w, tok(f[2]), f[1], created, tokens, tokenOwner, newWallet); r != "" {
+					o = r
 				}
 			}
 		}
